@@ -46,3 +46,48 @@ def search_resolution(fl, FA, vals=None, n=3, seed=0, limit=2000, **kw):
         return {"failed": True, "class": f"fld-rowcount:n={n}", "expected": f"{want} rows", "observed": f"{got} rows", "all_failing": [b[0] for b in bad],
                 "call": f"FldExporter().to_string_from_scope(<engine with {n} input variables>, values={v}, scope=AllVariables)", "cases": cases}
     return {"failed": False, "cases": cases, "distinct": cases}
+
+
+def replay_wrappers(fl, FA, vals=None, **kw):
+    """the string / file / writer variants of one export print the same dataset: every argument (values, scope, active variables, skipped lines) reaches
+    write_from_scope / write_from_reader whichever entry point is used"""
+    import io, os, tempfile
+    from pathlib import Path
+    e = _engine(fl, 2)
+    S = fl.FldExporter.ScopeOfValues
+    cases = 0
+    tmp = tempfile.mkdtemp(prefix="pyvc_fld_")
+    try:
+        for scope in (S.EachVariable, S.AllVariables):
+            for v in (3, 5, 16):
+                for act in (None, {e.input_variables[0]}, {e.input_variables[1]}):
+                    cases += 1
+                    exp = fl.FldExporter()
+                    w = io.StringIO(); exp.write_from_scope(e, w, v, scope, act)
+                    ref = w.getvalue()
+                    txt = exp.to_string_from_scope(e, v, scope, act)
+                    p = Path(tmp) / "out.fld"
+                    exp.to_file_from_scope(p, e, v, scope, act)
+                    got = p.read_text()
+                    for nm, t in (("to_string_from_scope", txt), ("to_file_from_scope", got)):
+                        if t != ref:
+                            return {"failed": True, "class": "fld-wrapper:" + nm, "expected": f"{len(ref.splitlines())} lines, as write_from_scope", "observed": f"{len(t.splitlines())} lines: {t[:120]!r}", "cases": cases,
+                                    "call": f"FldExporter().{nm}(engine with 2 inputs, values={v}, scope={scope.name}, active_variables={'None' if act is None else [x.name for x in act]})"}
+        rows = "# comment\n0.1 0.2\n\n0.3 0.4\n0.5 0.6\n"
+        for skip in (0, 1, 2, 3):
+            cases += 1
+            exp = fl.FldExporter()
+            w = io.StringIO(); exp.write_from_reader(e, w, io.StringIO(rows), skip)
+            ref = w.getvalue()
+            txt = exp.to_string_from_reader(e, io.StringIO(rows), skip)
+            p = Path(tmp) / "out2.fld"
+            exp.to_file_from_reader(p, e, io.StringIO(rows), skip)
+            got = p.read_text()
+            for nm, t in (("to_string_from_reader", txt), ("to_file_from_reader", got)):
+                if t != ref:
+                    return {"failed": True, "class": "fld-wrapper:" + nm, "expected": ref[:200], "observed": t[:200], "cases": cases, "call": f"FldExporter().{nm}(engine, reader, skip_lines={skip})"}
+    finally:
+        for f in os.listdir(tmp):
+            os.remove(os.path.join(tmp, f))
+        os.rmdir(tmp)
+    return {"failed": False, "cases": cases, "distinct": cases}
